@@ -14,6 +14,13 @@ package main
 //   - `grammar.F` is an edge to the package-level function F of grammar/ast.go.
 // This over-approximates.  Functions of grammar/grammar.go (the parser) are
 // not part of this summary.
+//
+// Every store site and every origin of an appended-to local carries a CLASS
+// computed by a per-function freshness analysis (see freshness below), so that
+// the Lean tie checks classes instead of comparing source text: rewriting a
+// statement without changing where the written memory comes from keeps the
+// class.  The analysis resolves names by NAME within one function and answers
+// "shared" whenever it does not recognise a construct.
 
 import (
 	"go/ast"
@@ -28,8 +35,8 @@ import (
 var effectsSchema = []defSpec{
 	{"reachable", "List String"},
 	{"reachableFromEvaluate", "List String"},
-	{"appendOrigins", "List (String × String × String)"},
-	{"storeSites", "List (String × String × String)"},
+	{"appendOrigins", "List (String × String × String × String)"}, // (function, variable, class, text)
+	{"storeSites", "List (String × String × String × String)"},    // (function, kind, class, text)
 	{"globals", "List (String × String)"},
 	{"evaluatorFields", "List String"},
 	{"filterFields", "List String"},
@@ -142,10 +149,11 @@ type effNode struct {
 }
 
 type effSite struct {
-	pos  token.Pos
-	seq  int
-	kind string
-	text string
+	pos   token.Pos
+	seq   int
+	kind  string
+	class string // "local", "setter", "param-field" or "shared" (see storeSitesOf)
+	text  string
 }
 
 func extractEffects(files map[string]*srcFile) (map[string]lval, []string) {
@@ -340,10 +348,25 @@ func extractEffects(files map[string]*srcFile) (map[string]lval, []string) {
 	sort.Strings(fromEval)
 	vals["reachableFromEvaluate"] = lStrs(fromEval)
 
-	// ---- where the slices that are appended to come from: every right-hand side assigned to a
-	// local identifier that is the first argument of an append call in a reachable function
-	var origins [][3]string
+	// ---- package-level names (they shadow the builtins and are never locals)
+	pkgScope, astScope := packageScope(pkgFiles), packageScope([]*srcFile{astFile})
+	scopeOf := func(n *effNode) map[string]bool {
+		if n.inAst {
+			return astScope
+		}
+		return pkgScope
+	}
+
+	// ---- where the slices that are appended to come from: every value received by a local
+	// identifier that is the first argument of an append call in a reachable function, with
+	// its class: "fresh", "parameter" or "shared"
+	var origins [][4]string
+	var sites [][4]string
 	for _, n := range rnodes {
+		if n.fd.Body == nil {
+			continue
+		}
+		fr := analyseFreshness(n.sf, n.fd, scopeOf(n), importNames(n.sf.file))
 		targets := map[string]bool{}
 		ast.Inspect(n.fd.Body, func(x ast.Node) bool {
 			if c, ok := x.(*ast.CallExpr); ok {
@@ -356,46 +379,25 @@ func extractEffects(files map[string]*srcFile) (map[string]lval, []string) {
 			return true
 		})
 		seen := map[string]bool{}
-		ast.Inspect(n.fd.Body, func(x ast.Node) bool {
-			as, ok := x.(*ast.AssignStmt)
-			if !ok {
-				return true
+		for _, o := range fr.origins {
+			k := o.name + "\x00" + o.text
+			if !targets[o.name] || seen[k] {
+				continue
 			}
-			for i, l := range as.Lhs {
-				id, ok := l.(*ast.Ident)
-				if !ok || !targets[id.Name] || i >= len(as.Rhs) {
-					continue
-				}
-				txt := n.sf.oneLine(as.Rhs[i])
-				k := id.Name + "\x00" + txt
-				if !seen[k] {
-					seen[k] = true
-					origins = append(origins, [3]string{n.key, id.Name, txt})
-				}
+			if o.how == "method" && fr.fresh[o.name] {
+				continue // a method call that does not matter (all values are reflect.Values)
 			}
-			return true
-		})
-		// parameters that are appended to are reported as such
-		if n.fd.Type.Params != nil {
-			for _, f := range n.fd.Type.Params.List {
-				for _, nm := range f.Names {
-					if targets[nm.Name] {
-						origins = append(origins, [3]string{n.key, nm.Name, "<parameter>"})
-					}
-				}
-			}
+			seen[k] = true
+			origins = append(origins, [4]string{n.key, o.name, fr.originClass(o), o.text})
+		}
+		// ---- store sites
+		for _, s := range storeSitesOf(n, globalSet, fr) {
+			sites = append(sites, [4]string{n.key, s.kind, s.class, s.text})
 		}
 	}
-	vals["appendOrigins"] = lTriples(origins)
-
-	// ---- store sites
-	var sites [][3]string
-	for _, n := range rnodes {
-		for _, s := range storeSitesOf(n, globalSet) {
-			sites = append(sites, [3]string{n.key, s.kind, s.text})
-		}
-	}
-	vals["storeSites"] = lTriples(sites)
+	// as before: grouped by function in key order, in source order within a function
+	vals["appendOrigins"] = lQuads(origins)
+	vals["storeSites"] = lQuads(sites)
 
 	// ---- struct fields
 	for _, t := range [][2]string{{"evaluatorFields", "Evaluator"}, {"filterFields", "Filter"}} {
@@ -454,7 +456,10 @@ func optsAppend(st ast.Stmt) ([]ast.Expr, bool) {
 	return call.Args[1:], true
 }
 
-// evaluateOptsBuilt lists how (*Evaluator).Evaluate builds `opts`.
+// evaluateOptsBuilt lists how (*Evaluator).Evaluate builds `opts`: the options
+// of the slice literal and of the appends, in source order (a conditional
+// append is listed with its condition); every other statement except the final
+// `return evaluate(<ast>, <datum>, opts...)` is listed as unknown.
 func evaluateOptsBuilt(f *fnDecl) []string {
 	if f == nil || f.fd.Body == nil {
 		return []string{unk("method Evaluator.Evaluate not found")}
@@ -470,13 +475,18 @@ func evaluateOptsBuilt(f *fnDecl) []string {
 	}
 	stmts := f.fd.Body.List
 	for i, st := range stmts {
-		// opts := []Option{ ... }
+		// opts := []Option{ ... }   or   opts := make([]Option, 0)   or   opts := make([]Option, 0, n)
 		if as, ok := st.(*ast.AssignStmt); ok && as.Tok == token.DEFINE && len(as.Lhs) == 1 && len(as.Rhs) == 1 && isIdent(as.Lhs[0], "opts") {
 			if cl, ok := as.Rhs[0].(*ast.CompositeLit); ok && sameStrings(sf.toks(cl.Type), []string{"[", "]", "Option"}) {
 				for _, el := range cl.Elts {
 					withOrUnknown("", el)
 				}
 				continue
+			}
+			if call, ok := as.Rhs[0].(*ast.CallExpr); ok && isIdent(call.Fun, "make") && !call.Ellipsis.IsValid() &&
+				(len(call.Args) == 2 || len(call.Args) == 3) && sameStrings(sf.toks(call.Args[0]), []string{"[", "]", "Option"}) &&
+				sameStrings(sf.toks(call.Args[1]), []string{"0"}) {
+				continue // an empty slice: contributes no option (the capacity does not matter)
 			}
 		}
 		// opts = append(opts, WithX(...))
@@ -507,6 +517,325 @@ func evaluateOptsBuilt(f *fnDecl) []string {
 		out = append(out, unk(sf.oneLine(st)))
 	}
 	return out
+}
+
+// ---------------------------------------------------------------------------
+// freshness
+//
+// A local variable is FRESH when every value it ever holds was allocated by
+// the running call of the function itself: memory no other call can reach.
+// A write into (or an append to) what a fresh variable holds is call-local.
+//
+// The analysis is per function and resolves identifiers by NAME: every
+// declaration and assignment of a name anywhere in the function (function
+// literals included) counts for that name, so a name that is declared twice is
+// fresh only if both variables are.  It is a greatest fixpoint (`x = append(x,
+// ...)` keeps x fresh when all other values of x are): start with every name
+// that has only candidate origins and remove names until nothing changes.
+//
+// Never fresh: receivers, parameters and results (of the declaration and of
+// every function literal or function type in it), range variables, names that
+// are also declared at package level, a variable whose address is taken
+// (`&v`: somebody else can then assign it), the left-hand side of a
+// multi-value or op= assignment, and a variable that is the receiver of a
+// method call (`v.M()` may be `(&v).M()`), unless all its values come from
+// package reflect (reflect.Value has value receivers only).
+
+// origin is one way a name gets a value.
+type origin struct {
+	name string
+	how  string   // "value" (expr is assigned), "zero" (`var v T`), "parameter", "method" (receiver of a call) or "other"
+	expr ast.Expr // how == "value": the assigned expression
+	text string   // reported text
+	typ  ast.Expr // how == "parameter": the declared type
+	lit  bool     // how == "parameter": of a function literal or function type, not of the declaration itself
+}
+
+type freshness struct {
+	sf       *srcFile
+	origins  []origin            // walk (= source) order
+	byName   map[string][]origin // the same, per name
+	declared map[string]bool     // names declared in the function (an origin other than "method")
+	scope    map[string]bool     // package-level names
+	imports  map[string]string   // local import name -> path
+	fresh    map[string]bool     // the result
+}
+
+// packageScope is the set of names declared at package level in the given files.
+func packageScope(sfs []*srcFile) map[string]bool {
+	out := map[string]bool{}
+	for _, sf := range sfs {
+		if sf == nil || sf.file == nil {
+			continue
+		}
+		for _, d := range sf.file.Decls {
+			switch x := d.(type) {
+			case *ast.FuncDecl:
+				if x.Recv == nil {
+					out[x.Name.Name] = true
+				}
+			case *ast.GenDecl:
+				for _, sp := range x.Specs {
+					switch y := sp.(type) {
+					case *ast.ValueSpec:
+						for _, n := range y.Names {
+							out[n.Name] = true
+						}
+					case *ast.TypeSpec:
+						out[y.Name.Name] = true
+					}
+				}
+			}
+		}
+	}
+	return out
+}
+
+func analyseFreshness(sf *srcFile, fd *ast.FuncDecl, scope map[string]bool, imports map[string]string) *freshness {
+	fr := &freshness{sf: sf, byName: map[string][]origin{}, declared: map[string]bool{}, scope: scope, imports: imports, fresh: map[string]bool{}}
+	add := func(o origin) {
+		if o.name == "_" {
+			return
+		}
+		fr.origins = append(fr.origins, o)
+		fr.byName[o.name] = append(fr.byName[o.name], o)
+		if o.how != "method" {
+			fr.declared[o.name] = true
+		}
+	}
+	fields := func(fl *ast.FieldList, how, text string, lit bool) {
+		if fl == nil {
+			return
+		}
+		for _, f := range fl.List {
+			for _, nm := range f.Names {
+				add(origin{name: nm.Name, how: how, text: text, typ: f.Type, lit: lit})
+			}
+		}
+	}
+	fields(fd.Recv, "other", "<receiver>", false)
+	ast.Inspect(fd, func(nd ast.Node) bool {
+		switch x := nd.(type) {
+		case *ast.FuncType:
+			fields(x.Params, "parameter", "<parameter>", x != fd.Type)
+			fields(x.Results, "other", "<result>", false)
+		case *ast.AssignStmt:
+			for i, l := range x.Lhs {
+				id, ok := unparen(l).(*ast.Ident)
+				if !ok {
+					continue
+				}
+				switch {
+				case (x.Tok == token.DEFINE || x.Tok == token.ASSIGN) && len(x.Lhs) == len(x.Rhs):
+					add(origin{name: id.Name, how: "value", expr: x.Rhs[i], text: sf.oneLine(x.Rhs[i])})
+				default: // multi-value right-hand side, or op=
+					add(origin{name: id.Name, how: "other", text: sf.oneLine(x)})
+				}
+			}
+		case *ast.IncDecStmt:
+			if id, ok := unparen(x.X).(*ast.Ident); ok {
+				add(origin{name: id.Name, how: "other", text: sf.oneLine(x)})
+			}
+		case *ast.RangeStmt:
+			for _, l := range []ast.Expr{x.Key, x.Value} {
+				if l == nil {
+					continue
+				}
+				if id, ok := unparen(l).(*ast.Ident); ok {
+					add(origin{name: id.Name, how: "other", text: "<range variable>"})
+				}
+			}
+		case *ast.DeclStmt:
+			gd, ok := x.Decl.(*ast.GenDecl)
+			if !ok {
+				return true
+			}
+			for _, sp := range gd.Specs {
+				if ts, ok := sp.(*ast.TypeSpec); ok {
+					add(origin{name: ts.Name.Name, how: "other", text: "<local type>"})
+				}
+				vs, ok := sp.(*ast.ValueSpec)
+				if !ok {
+					continue
+				}
+				for i, nm := range vs.Names {
+					switch {
+					case gd.Tok != token.VAR:
+						add(origin{name: nm.Name, how: "other", text: "<local constant>"})
+					case len(vs.Values) == 0:
+						add(origin{name: nm.Name, how: "zero", text: "var " + sf.oneLine(vs)})
+					case len(vs.Values) == len(vs.Names):
+						add(origin{name: nm.Name, how: "value", expr: vs.Values[i], text: sf.oneLine(vs.Values[i])})
+					default:
+						add(origin{name: nm.Name, how: "other", text: "var " + sf.oneLine(vs)})
+					}
+				}
+			}
+		case *ast.UnaryExpr:
+			if x.Op == token.AND {
+				if id, ok := unparen(x.X).(*ast.Ident); ok {
+					add(origin{name: id.Name, how: "other", text: "<address taken> " + sf.oneLine(x)})
+				}
+			}
+		case *ast.CallExpr:
+			if sel, ok := unparen(x.Fun).(*ast.SelectorExpr); ok {
+				if id, ok := unparen(sel.X).(*ast.Ident); ok {
+					add(origin{name: id.Name, how: "method", text: "<receiver of a call> " + sf.oneLine(x.Fun)})
+				}
+			}
+		}
+		return true
+	})
+
+	// greatest fixpoint
+	for name, os := range fr.byName {
+		fr.fresh[name] = !scope[name] && fr.declared[name] && len(os) > 0
+	}
+	for changed := true; changed; {
+		changed = false
+		for name, os := range fr.byName {
+			if !fr.fresh[name] {
+				continue
+			}
+			ok, method, allReflect := true, false, true
+			for _, o := range os {
+				switch o.how {
+				case "zero":
+					allReflect = false
+				case "value":
+					if !fr.freshExpr(o.expr) {
+						ok = false
+					}
+					if !fr.isReflectCall(o.expr) {
+						allReflect = false
+					}
+				case "method":
+					method = true
+				default:
+					ok = false
+				}
+			}
+			if !ok || (method && !allReflect) {
+				fr.fresh[name] = false
+				changed = true
+			}
+		}
+	}
+	return fr
+}
+
+// builtin reports whether e is the predeclared identifier `name` (not
+// redeclared in the function or at package level).
+func (fr *freshness) builtin(e ast.Expr, name string) bool {
+	return isIdent(e, name) && !fr.declared[name] && !fr.scope[name]
+}
+
+// reflectFn recognises `reflect.F` (the imported package "reflect") and returns F.
+func (fr *freshness) reflectFn(e ast.Expr) (string, bool) {
+	p, name, ok := pkgSel(unparen(e))
+	if !ok || fr.imports[p] != "reflect" || fr.declared[p] {
+		return "", false
+	}
+	return name, true
+}
+
+func (fr *freshness) isReflectCall(e ast.Expr) bool {
+	call, ok := unparen(e).(*ast.CallExpr)
+	if !ok {
+		return false
+	}
+	_, ok = fr.reflectFn(call.Fun)
+	return ok
+}
+
+// freshLocal: e is an identifier naming a (currently) fresh local.
+func (fr *freshness) freshLocal(e ast.Expr) bool {
+	id, ok := unparen(e).(*ast.Ident)
+	return ok && fr.fresh[id.Name]
+}
+
+// freshExpr: the value of e is allocated by the evaluation of e itself, or is
+// what a fresh local holds.
+//
+//	nil, []T(nil), make(...), new(T), T{...}, &T{...}, a fresh local,
+//	append(F, ...) with F one of these,
+//	reflect.MakeSlice / MakeMap / MakeMapWithSize / New (...),
+//	reflect.Append / AppendSlice (F, ...) with F a fresh local.
+func (fr *freshness) freshExpr(e ast.Expr) bool {
+	e = unparen(e)
+	switch x := e.(type) {
+	case *ast.Ident:
+		return fr.builtin(x, "nil") || fr.fresh[x.Name]
+	case *ast.CompositeLit:
+		return true
+	case *ast.UnaryExpr:
+		_, isLit := unparen(x.X).(*ast.CompositeLit)
+		return x.Op == token.AND && isLit
+	case *ast.CallExpr:
+		switch {
+		case fr.builtin(x.Fun, "make") || fr.builtin(x.Fun, "new"):
+			return true
+		case fr.builtin(x.Fun, "append"):
+			return len(x.Args) > 0 && fr.freshExpr(x.Args[0])
+		}
+		if at, ok := unparen(x.Fun).(*ast.ArrayType); ok && at.Len == nil {
+			return len(x.Args) == 1 && fr.builtin(unparen(x.Args[0]), "nil") // []T(nil)
+		}
+		if name, ok := fr.reflectFn(x.Fun); ok {
+			switch name {
+			case "MakeSlice", "MakeMap", "MakeMapWithSize", "New":
+				return true
+			case "Append", "AppendSlice":
+				return len(x.Args) > 0 && fr.freshLocal(x.Args[0])
+			}
+		}
+	}
+	return false
+}
+
+// originClass: "fresh", "parameter" or "shared".
+func (fr *freshness) originClass(o origin) string {
+	switch {
+	case o.how == "parameter":
+		return "parameter"
+	case o.how == "zero", o.how == "value" && fr.freshExpr(o.expr):
+		return "fresh"
+	}
+	return "shared"
+}
+
+// setterParam: name is declared exactly once in the function, as the one
+// parameter `name *options` of a function literal (the shape of the Option
+// setters of options.go), and is never assigned.
+func (fr *freshness) setterParam(name string) bool {
+	os := fr.byName[name]
+	if len(os) != 1 || os[0].how != "parameter" || !os[0].lit || fr.scope[name] {
+		return false
+	}
+	st, ok := os[0].typ.(*ast.StarExpr)
+	return ok && isIdent(st.X, "options")
+}
+
+// valueParam: name is declared exactly once in the function, as a parameter of
+// the declaration itself whose type is a type name (T or pkg.T, no pointer,
+// slice, map, ...), and is never assigned as a whole: for a struct type T the
+// callee owns a copy, and `name.f = e` writes that copy.  (Method calls on it
+// do not matter: they act on the copy, too.)
+func (fr *freshness) valueParam(name string) bool {
+	var decl []origin
+	for _, o := range fr.byName[name] {
+		if o.how != "method" {
+			decl = append(decl, o)
+		}
+	}
+	if len(decl) != 1 || decl[0].how != "parameter" || decl[0].lit {
+		return false
+	}
+	if _, ok := decl[0].typ.(*ast.Ident); ok {
+		return true
+	}
+	_, _, ok := pkgSel(decl[0].typ)
+	return ok
 }
 
 // ---------------------------------------------------------------------------
@@ -548,7 +877,19 @@ func isFreshSliceArg(e ast.Expr) bool {
 	return false
 }
 
-func storeSitesOf(n *effNode, globals map[string]bool) []effSite {
+// storeSitesOf lists the statements of a function that can write memory other
+// than the function's own variables, each with a kind and a class:
+//
+//	"local"        the written memory belongs to a fresh local (see freshness):
+//	               `append(x, ...)`, `x.f = e`, `x[i] = e`, `copy/delete/clear(x, ...)`,
+//	               `reflect.Append(x, ...)`, `x.SetMapIndex(...)` with x a fresh local;
+//	"setter"       `o.f = e` / `append(o.f, ...)` with o the `*options` parameter of a
+//	               function literal (an Option setter writing the struct it is applied to);
+//	"param-field"  `p.f = e` with p a by-value parameter of a named type;
+//	"shared"       everything else, in particular every target that is reached through
+//	               more than one selector / index step, writes to package-level variables,
+//	               through pointers, goroutines, channels and package sync.
+func storeSitesOf(n *effNode, globals map[string]bool, fr *freshness) []effSite {
 	fd, sf := n.fd, n.sf
 	if fd.Body == nil {
 		return nil
@@ -614,8 +955,31 @@ func storeSitesOf(n *effNode, globals map[string]bool) []effSite {
 	})
 
 	var sites []effSite
-	report := func(pos token.Pos, kind, text string) {
-		sites = append(sites, effSite{pos: pos, seq: len(sites), kind: kind, text: text})
+	reportAs := func(pos token.Pos, kind, class, text string) {
+		sites = append(sites, effSite{pos: pos, seq: len(sites), kind: kind, class: class, text: text})
+	}
+	report := func(pos token.Pos, kind, text string) { reportAs(pos, kind, "shared", text) }
+	// localIf: "local" if e is an identifier naming a fresh local
+	localIf := func(e ast.Expr) string {
+		if fr.freshLocal(e) {
+			return "local"
+		}
+		return "shared"
+	}
+	// oneStep classifies the target `x.f` / `x[i]` (x is what is selected from / indexed)
+	oneStep := func(x ast.Expr, field bool) string {
+		id, ok := unparen(x).(*ast.Ident)
+		switch {
+		case !ok:
+			return "shared"
+		case fr.fresh[id.Name]:
+			return "local"
+		case field && fr.setterParam(id.Name):
+			return "setter"
+		case field && fr.valueParam(id.Name):
+			return "param-field"
+		}
+		return "shared"
 	}
 	// lhs classifies one assigned-to expression.
 	lhs := func(e ast.Expr, st ast.Stmt, opAssign bool) {
@@ -634,9 +998,9 @@ func storeSitesOf(n *effNode, globals map[string]bool) []effSite {
 				report(st.Pos(), unk("assignment to an identifier that is neither a local nor a package-level variable"), sf.oneLine(st))
 			}
 		case *ast.SelectorExpr:
-			report(st.Pos(), "assign-field", sf.oneLine(st))
+			reportAs(st.Pos(), "assign-field", oneStep(x.X, true), sf.oneLine(st))
 		case *ast.IndexExpr:
-			report(st.Pos(), "assign-index", sf.oneLine(st))
+			reportAs(st.Pos(), "assign-index", oneStep(x.X, false), sf.oneLine(st))
 		case *ast.StarExpr:
 			report(st.Pos(), "assign-deref", sf.oneLine(st))
 		default:
@@ -702,17 +1066,39 @@ func storeSitesOf(n *effNode, globals map[string]bool) []effSite {
 			case *ast.Ident:
 				switch fun.Name {
 				case "append":
-					if len(x.Args) == 0 || !isFreshSliceArg(x.Args[0]) {
+					switch {
+					case len(x.Args) == 0:
 						report(x.Pos(), "append", sf.oneLine(x))
+					case isFreshSliceArg(x.Args[0]):
+						// appending to nil / a literal / make(...) allocates: not a store site
+					default:
+						class := localIf(x.Args[0])
+						if s, ok := unparen(x.Args[0]).(*ast.SelectorExpr); ok && oneStep(s.X, true) == "setter" {
+							class = "setter"
+						}
+						reportAs(x.Pos(), "append", class, sf.oneLine(x))
 					}
 				case "delete", "copy", "clear":
-					report(x.Pos(), "builtin-mutator", sf.oneLine(x))
+					class := "shared"
+					if len(x.Args) > 0 {
+						class = localIf(x.Args[0])
+					}
+					reportAs(x.Pos(), "builtin-mutator", class, sf.oneLine(x))
 				case "close":
 					report(x.Pos(), "chan", sf.oneLine(x))
 				}
 			case *ast.SelectorExpr:
 				if isReflectMutator(fun.Sel.Name) {
-					report(x.Pos(), "reflect-mutator", sf.oneLine(x))
+					// the mutated operand: the first argument of reflect.Append /
+					// AppendSlice / Copy, the receiver of a method (v.Set..., v.Grow, ...)
+					class := localIf(fun.X)
+					if _, ok := fr.reflectFn(fun); ok {
+						class = "shared"
+						if len(x.Args) > 0 {
+							class = localIf(x.Args[0])
+						}
+					}
+					reportAs(x.Pos(), "reflect-mutator", class, sf.oneLine(x))
 				}
 				if lockMethods[fun.Sel.Name] {
 					report(x.Pos(), "sync", sf.oneLine(x))
